@@ -47,9 +47,9 @@ FEATURE_TREES = [
 
 
 def plan(tier, seed):
-    n_entries = 3 if tier == "quick" else 4
+    n_entries = 5 if tier == "quick" else 6
     trees = tree_space(n_entries)
-    step = 40 if tier == "quick" else 60
+    step = 40 if tier == "quick" else 80
     shards = [{"part": "trees", "lo": lo, "hi": lo + step, "n": n_entries, "bound": f"trees<={n_entries} entries"}
               for lo in range(0, len(trees), step)]
     shards.append({"part": "feature", "bound": "feature trees"})
